@@ -9,15 +9,15 @@ import WuffsVerif.Proof.Flate.Single
 namespace WuffsVerif.Flate.Cut
 open WuffsVerif.Gen.C16 WuffsVerif.Flate.Spec
 
-/-- What the tail of `doHuffman` does on a block that the spec decoder decodes completely, started at
-the beginning of the output (`out = #[]`, `decodedLen = 0`). -/
-structure TailSim (hl hd : Huff) (minL minD : Nat) (c : Cutter) (pE : Nat) (T : Bytes)
+/-- What the tail of `doHuffman` does on a block that the spec decoder decodes completely (from output
+`out`, with `decodedLen = out.size`, to output `T` at bit `pE`). -/
+structure TailSim (hl hd : Huff) (minL minD : Nat) (c : Cutter) (out : Bytes) (pE : Nat) (T : Bytes)
     (r : Cutter × Option Err) : Prop where
   size : r.1.bits.bytes.size = c.bits.bytes.size
   max : r.1.maxEncodedLen = c.maxEncodedLen
   nil : r.2 = none → r.1.bits.bytes = c.bits.bytes ∧ r.1.bits.pos = pE ∧ r.1.decodedLen = (T.size : Int) ∧
       pE ≤ 8 * c.maxEncodedLen ∧ r.1.bits.Inv
-  prog : r.2 = some .someProgress → ∃ q o, Reach hl hd minL minD c.bits.bytes c.bits.pos #[] q o ∧
+  prog : r.2 = some .someProgress → ∃ q o, Reach hl hd minL minD c.bits.bytes c.bits.pos out q o ∧
       c.bits.pos < q ∧ r.1.decodedLen = (o.size : Int) ∧ q + c.endCodeNBits ≤ 8 * c.maxEncodedLen ∧
       8 * r.1.bits.index - r.1.bits.nBits = q + c.endCodeNBits ∧ r.1.bits.nBits ≤ 8 * r.1.bits.index ∧
       r.1.bits.nBits ≤ 8 ∧
@@ -25,23 +25,25 @@ structure TailSim (hl hd : Huff) (minL minD : Nat) (c : Cutter) (pE : Nat) (T : 
         if q ≤ i ∧ i < q + c.endCodeNBits then (c.endCodeBits.testBit (c.endCodeNBits - 1 - (i - q))).toNat
         else bitAt c.bits.bytes i
   keep : r.2 = some .noProgress ∨ r.2 = some .replaceWithSingleBlock → r.1.bits.bytes = c.bits.bytes
+  keepD : r.2 = some .noProgress → r.1.decodedLen = c.decodedLen
   errs : ∀ e, r.2 = some e → e = .someProgress ∨ e = .noProgress ∨ e = .replaceWithSingleBlock
 
 theorem huffTail_sim (c : Cutter) (hc : c.OK) (ll dl : Array Nat) (hl hd : Huff) (ctx : BlockCtx c ll dl hl hd)
-    (minL minD fuelS pE : Nat) (T : Bytes)
-    (hspec : huffBlock hl hd minL minD c.bits.bytes none 0 fuelS c.bits.pos #[] = .next pE T)
-    (hcd : c.decodedLen = 0) (hT : (T.size : Int) < 2147483648) (hecn : c.endCodeNBits ≠ 0) (isFirst : Bool) :
-    TailSim hl hd minL minD c pE T (c.huffTail isFirst) := by
+    (minL minD fuelS pE : Nat) (out T : Bytes)
+    (hspec : huffBlock hl hd minL minD c.bits.bytes none 0 fuelS c.bits.pos out = .next pE T)
+    (hcd : c.decodedLen = (out.size : Int)) (hT : (T.size : Int) < 2147483648) (hecn : c.endCodeNBits ≠ 0)
+    (hecn' : c.endCodeNBits = ll.getD 256 0) (isFirst : Bool) :
+    TailSim hl hd minL minD c out pE T (c.huffTail isFirst) := by
   obtain ⟨k1, k2, _⟩ := huffTail_ok c isFirst hecn
-  have htr := huffLoop_tracks hl hd minL minD 0 ll dl fuelS (8 * c.bits.bytes.size + 2) c none 0 #[] pE T hc ctx hcd
-    (by rw [← hcd] at *; exact hspec) (by omega) (by simp; omega) (by omega)
-  have hpost := huffLoop_total ll dl ctx.szl ctx.szd (8 * c.bits.bytes.size + 2) c none 0 hc ctx.gl ctx.gd
+  have htr := huffLoop_tracks hl hd minL minD 0 ll dl fuelS (8 * c.bits.bytes.size + 2) c none (out.size : Int) out pE T
+    hc ctx hcd hecn' (by intro h; exact absurd rfl h) hspec (by omega) (by omega) (by omega)
+  have hpost := huffLoop_total ll dl ctx.szl ctx.szd (8 * c.bits.bytes.size + 2) c none (out.size : Int) hc ctx.gl ctx.gd
     (by omega) (by intro i n h; simp at h)
   simp only [Cutter.huffTail] at k1 k2 ⊢
   rw [hcd] at k1 k2 ⊢
-  generalize Cutter.huffLoop (8 * c.bits.bytes.size + 2) c none 0 = res at htr hpost k1 k2
+  generalize Cutter.huffLoop (8 * c.bits.bytes.size + 2) c none (out.size : Int) = res at htr hpost k1 k2
   obtain ⟨c1, cp, r⟩ := res
-  obtain ⟨t1, t2, t3, t4⟩ := htr
+  obtain ⟨t1, t2, t3, t4, _⟩ := htr
   obtain ⟨m1, m2, m3, m4, m5, m6, np, nf, hcp, hret⟩ := hpost
   simp only [] at t1 t2 t3 t4 m1 m2 m3 m4 m5 m6 np nf hcp hret k1 k2 ⊢
   cases r with
@@ -51,17 +53,22 @@ theorem huffTail_sim (c : Cutter) (hc : c.OK) (ll dl : Array Nat) (hl hd : Huff)
     | none =>
       obtain ⟨a1, a2, a3⟩ := t2 rfl
       obtain ⟨i1, _⟩ := hret rfl
-      refine ⟨k2, k1, fun _ => ⟨t1, a1, by simp at a2; exact a2, a3, i1⟩, by intro h; simp at h, by intro h; simp at h,
-        by intro e h; simp at h⟩
+      have a2 : c1.decodedLen + (out.size : Int) = (out.size : Int) + (T.size : Int) := a2
+      refine ⟨k2, k1, fun _ => ⟨t1, a1, by show c1.decodedLen = (T.size : Int); omega, a3, i1⟩, by intro h; simp at h, by intro h; simp at h,
+        by intro h; simp at h, by intro e h; simp at h⟩
     | some e =>
-      have := t4 e rfl
+      obtain ⟨this, hdl⟩ := t4 e rfl
       subst this
-      exact ⟨k2, k1, by intro h; simp at h, by intro h; simp at h, fun _ => t1, by intro e h; simp at h; simp [← h]⟩
+      exact ⟨k2, k1, by intro h; simp at h, by intro h; simp at h, fun _ => t1, fun _ => hdl, by intro e h; simp at h; simp [← h]⟩
   | none =>
     cases cp with
     | none =>
       simp only [] at k1 k2 ⊢
-      exact ⟨k2, k1, by intro h; simp at h, by intro h; simp at h, fun _ => t1, by intro e h; simp at h; simp [← h]⟩
+      have hdl : c1.decodedLen = c.decodedLen := by
+        rcases t3 rfl with ⟨_, a2⟩ | ⟨ci', cn', q, o, a1, _⟩
+        · exact a2
+        · simp at a1
+      exact ⟨k2, k1, by intro h; simp at h, by intro h; simp at h, fun _ => t1, fun _ => hdl, by intro e h; simp at h; simp [← h]⟩
     | some cpv =>
       obtain ⟨ci, cn⟩ := cpv
       simp only [] at k1 k2 ⊢
@@ -73,7 +80,7 @@ theorem huffTail_sim (c : Cutter) (hc : c.OK) (ll dl : Array Nat) (hl hd : Huff)
         split
         · rename_i hrep
           simp only [hrep, if_true] at k1 k2
-          exact ⟨k2, k1, by intro h; simp at h, by intro h; simp at h, fun _ => t1, by intro e h; simp at h; simp [← h]⟩
+          exact ⟨k2, k1, by intro h; simp at h, by intro h; simp at h, fun _ => t1, by intro h; simp at h, by intro e h; simp at h; simp [← h]⟩
         · rename_i hrep
           simp only [hrep, if_false] at k1 k2
           obtain ⟨q1, q2, q3⟩ := hcp ci cn rfl
@@ -82,7 +89,7 @@ theorem huffTail_sim (c : Cutter) (hc : c.OK) (ll dl : Array Nat) (hl hd : Huff)
           rw [ew] at k1 k2 ⊢
           simp only [] at k1 k2 ⊢
           refine ⟨k2, k1, by intro h; simp at h, ?_, by intro h; rcases h with h | h <;> simp at h,
-            by intro e h; simp at h; simp [← h]⟩
+            by intro h; simp at h, by intro e h; simp at h; simp [← h]⟩
           intro _
           -- the bits written by writeEndCode
           simp only [Cutter.writeEndCode] at ew
@@ -99,7 +106,8 @@ theorem huffTail_sim (c : Cutter) (hc : c.OK) (ll dl : Array Nat) (hl hd : Huff)
               simp only [Bitstream.unread]; omega
             rw [hP] at w2 w5
             simp only [Bitstream.unread] at w5
-            refine ⟨q, o, a4, a5, by simp at a6; exact a6, a7, by rw [← m2]; exact w2, w3, w4, ?_⟩
+            have a6 : c1.decodedLen + (out.size : Int) = (out.size : Int) + (o.size : Int) := a6
+            refine ⟨q, o, a4, a5, by show c1.decodedLen = (o.size : Int); omega, a7, by rw [← m2]; exact w2, w3, w4, ?_⟩
             intro i
             rw [w5 i, m2, m3, m6]
 
